@@ -8,6 +8,7 @@ import Rare.Proofs.C03Wiring
 import Rare.Proofs.C03Spark
 import Rare.Proofs.C03Cmd
 import Rare.Proofs.C03SparkCsv
+import Rare.Proofs.C03Sbv
 import Rare.Gen.C03
 import Rare.Props.C07
 import Rare.Props.C13
@@ -1115,7 +1116,123 @@ theorem sort_names_pure_strict_total :
     pureSortLess (asc "value:up") = none ∧
     sortsByValue (asc "value") = true ∧ sortsByValue (asc "Value:ASC") = true ∧ sortsByValue (asc "text") = false ∧
     sortsByValue (asc "value:up") = false :=
-  ⟨pureSortLess_order, rfl, rfl, rfl, rfl, rfl, rfl, rfl, rfl, rfl, rfl, rfl, rfl, rfl, rfl⟩
+  ⟨pureSortLess_order,
+   pureSortLess_value _ (asc "value") true (by decide +kernel) (by decide +kernel),
+   pureSortLess_value _ (asc "value") false (by decide +kernel) (by decide +kernel),
+   pureSortLess_value _ (asc "value") false (by decide +kernel) (by decide +kernel),
+   pureSortLess_text _ (asc "text") false (by decide +kernel) (by decide +kernel),
+   pureSortLess_text _ (asc "text") true (by decide +kernel) (by decide +kernel),
+   pureSortLess_text _ [] false (by decide +kernel) (by decide +kernel),
+   pureSortLess_infer _ (asc "numeric") false .numeric (by decide +kernel) (by decide +kernel) (by decide),
+   pureSortLess_infer _ (asc "contextual") false .contextual (by decide +kernel) (by decide +kernel) (by decide),
+   pureSortLess_infer _ (asc "date") false .date (by decide +kernel) (by decide +kernel) (by decide),
+   pureSortLess_error _ (by decide +kernel),
+   by decide +kernel, by decide +kernel, by decide +kernel, by decide +kernel⟩
+
+/-- `helpers.SortsByValue` and the guard of spark's trim step EVALUATED from the source (regenerated on every run as small
+expression trees, `Gen.C03.sortsByValueFn` / `sparkTrimGuardE`): for every flag text the function of the source answers
+what the model's `sortsByValue` answers – with `lowerK` and with Go's `strings.ToLower` under any rune map meeting C13's
+`RuneLower` contract (checked against `unicode.ToLower` for all code points by C13's `lowtab` op) – and the guard of the
+source is the guard `sparkCmd` evaluates, for every `--notruncate` and `--sort-cols`.  A `SortsByValue` that stops going
+through `parseSort` (a case-sensitive comparison of the raw text, say) no longer evaluates to this. -/
+theorem sorts_by_value_from_source :
+    (∀ fullName, Gen.C03.sortsByValueFn.eval (parseSort lowerK) fullName = some (sortsByValue fullName)) ∧
+    (∀ tl, RuneLower tl → ∀ fullName,
+      Gen.C03.sortsByValueFn.eval (parseSort (goToLower tl)) fullName = some (sortsByValue fullName)) ∧
+    (∀ (noTruncate : Bool) (sortCols : Bytes), Gen.C03.sparkTrimGuardE.eval
+        { bools := fun v => if v = "noTruncate" then some noTruncate else none,
+          calls := fun f args => if f = "helpers.SortsByValue" ∧ args = ["sortCols"] then
+            Gen.C03.sortsByValueFn.eval (parseSort lowerK) sortCols else none } =
+      some (!noTruncate && !sortsByValue sortCols)) := by
+  have key : ∀ (parse : Bytes → Except SortErr (Bytes × Bool)) (fullName : Bytes),
+      Gen.C03.sortsByValueFn.eval parse fullName =
+        some (match parse fullName with | .ok (name, _) => name == asc "value" | .error _ => false) := by
+    intro parse fullName
+    simp only [Gen.C03.sortsByValueFn, SbvSrc.eval, GoB.eval]
+    cases parse fullName with
+    | error e => simp
+    | ok p => obtain ⟨n, r⟩ := p; simp
+  have k1 : ∀ f, Gen.C03.sortsByValueFn.eval (parseSort lowerK) f = some (sortsByValue f) := by
+    intro f; rw [key]; rfl
+  refine ⟨k1, fun tl h f => ?_, fun nt sc => ?_⟩
+  · rw [key, ← sortsByValueWith_lower tl h f]; rfl
+  · simp only [Gen.C03.sparkTrimGuardE, GoB.eval, if_true, and_self, k1 sc, Option.map_some]
+
+/-- The trim guard and the sorter agree on EVERY spelling: `SortsByValue(text)` is true exactly when `BuildSorter(text)`
+builds the value sorter (`VALUE`, `Value:asc`, `vAlUe:Desc` … – names and modifiers are case-insensitive in both, because
+both go through `parseSort`); whenever it is false and `BuildSorter` succeeds – `text`, `numeric`, `contextual`, `date`, any
+modifier, any oracle for `ParseFloat` and the date formats – the comparator built never looks at the VALUES of the rows, so
+the column order `spark` trims by is a function of the column names (the hypothesis of `spark_trim_any_render_schedule`);
+for the pure names it is `nvNameLess` or its reverse. -/
+theorem sorts_by_value_agrees_with_build_sorter :
+    (∀ fullName, sortsByValue fullName = true ↔ ∃ rev, builtSorter lowerK fullName = some (true, rev)) ∧
+    (∀ (o : Oracle), o.lower = lowerK → ∀ (sets : List SortSet) (fullName : Bytes) (s : Sorter),
+      buildSorter o sets fullName = .ok s →
+      (sortsByValue fullName = false →
+        ∀ (st : s.σ) (a b : NV) (va vb : Int), s.cmp st a b = s.cmp st ⟨a.name, va⟩ ⟨b.name, vb⟩) ∧
+      (sortsByValue fullName = true →
+        s = ⟨Unit, (), valueSorterEx (pureCmp byName)⟩ ∨ s = ⟨Unit, (), C13.reverse (valueSorterEx (pureCmp byName))⟩)) ∧
+    (∀ fullName less, pureSortLess fullName = some less → sortsByValue fullName = false →
+      less = nvNameLess ∨ less = revLess nvNameLess) ∧
+    sortsByValue (asc "VALUE") = true ∧ sortsByValue (asc "Value:desc") = true ∧ sortsByValue (asc "vAlUe:REV:x") = true ∧
+    sortsByValue (asc "TEXT") = false ∧ sortsByValue (asc "VALUE:up") = false ∧ sortsByValue (asc "value ") = false ∧
+    builtSorter lowerK (asc "VALUE") = some (true, true) ∧ builtSorter lowerK (asc "Value:Rev") = some (true, false) ∧
+    builtSorter lowerK (asc "NUMERIC:desc") = some (false, true) ∧ builtSorter lowerK (asc "VALUE:up") = none := by
+  refine ⟨sortsByValue_iff_built, fun o ho sets f s hb => buildSorter_by_name_or_value o ho sets f s hb, ?_,
+    by decide +kernel, by decide +kernel, by decide +kernel, by decide +kernel, by decide +kernel, by decide +kernel,
+    by decide +kernel, by decide +kernel, by decide +kernel, by decide +kernel⟩
+  intro f less hl hv
+  unfold pureSortLess at hl
+  unfold sortsByValue at hv
+  cases hp : parseSort lowerK f with
+  | error e => rw [hp] at hl; cases hl
+  | ok p =>
+    obtain ⟨name, rev⟩ := p
+    rw [hp] at hl hv
+    simp only at hl hv
+    have hiff := sortsByValue_iff_built f
+    unfold sortsByValue builtSorter at hiff
+    rw [hp] at hiff
+    simp only at hiff
+    cases hm : lookupMode lowerK name with
+    | none => rw [hm] at hl; cases hl
+    | some m =>
+      rw [hm] at hl hiff
+      cases m <;> simp only at hl hiff
+      · cases rev
+        · left; simp only [Bool.false_eq_true, if_false, Option.some.injEq] at hl; exact hl.symm
+        · right; simp only [if_true, Option.some.injEq] at hl; exact hl.symm
+      · cases hl
+      · cases hl
+      · cases hl
+      · have := hiff.mpr ⟨rev, rfl⟩
+        rw [hv] at this; cases this
+
+/-- Just outside: a `SortsByValue` that compares the raw text case-sensitively (`name, _, _ := strings.Cut(fullName, ":");
+return name == "value"`, evaluated by the same interpreter) calls `--sort-cols VALUE` a name sort although `BuildSorter`
+builds the value sorter for it – and trimming by a value order is not render-timing independent: `--cols 1`, samples
+a a b | a with the descending value order `VALUE` denotes.  All at once: column b is kept (`,b / r,1`); with a render after
+the third sample column a is dropped with its two counts, comes back and is kept with 1 (`,a / r,1`); the sequential
+reference (no trim for a value order) is `,a,b / r,3,1`. -/
+theorem sorts_by_value_case_sensitive_counterexample :
+    let raw : SbvSrc := { param := "fullName", lhs := ["name", "_", "_"], callee := "strings.Cut",
+                          args := ["fullName", "\":\""], ret := .strEq "name" "value" }
+    let valueTrim (t : Table) : Table :=
+      let cols := (isort (revLess nvValueAscLess) ((akeys t.cols).map fun c => (⟨c, t.colTotal c⟩ : NV))).map (·.name)
+      if cols.length > 1 then
+        (t.trim (renderPred (cols.drop (cols.length - 1))) (akeys t.cols) (fun _ => akeys t.rows)).1 else t
+    let csvOf (t : Table) : Bytes := writeCsv (tableCsvRows isortFn (akeys t.cols) (akeys t.rows) t)
+    let a : Bytes := [97, 0, 114]
+    let b : Bytes := [98, 0, 114]
+    raw.eval (parseSort lowerK) (asc "VALUE") = some false ∧ raw.eval (parseSort lowerK) (asc "value:asc") = some true ∧
+    sortsByValue (asc "VALUE") = true ∧ pureSortLess (asc "VALUE") = some (revLess nvValueAscLess) ∧
+    csvOf (valueTrim (Table.run [0] [a, a, b, a])) = ascii ",b\nr,1\n" ∧
+    csvOf (valueTrim ([a].foldl Table.sample (valueTrim (Table.run [0] [a, a, b])))) = ascii ",a\nr,1\n" ∧
+    csvOf (Table.run [0] [a, a, b, a]) = ascii ",a,b\nr,3,1\n" := by
+  intro raw valueTrim csvOf a b
+  exact ⟨by decide +kernel, by decide +kernel, by decide +kernel,
+    pureSortLess_value _ (asc "value") true (by decide +kernel) (by decide +kernel),
+    by decide +kernel, by decide +kernel, by decide +kernel⟩
 
 /-- `rare histo`, everything the command function produces: the `--num` rows on the screen (top `--num` in `--sort`
 order, then `--atleast`), the footer `Matched: m / r (Groups: g) (Ignored: i) (Errors: e)`, the `--all` table, the `--csv`
